@@ -4,7 +4,9 @@
 (* boxes [k, n, m, pf, par] (spiders with a phase form, scalars with a     *)
 (* data form, Hadamards and swaps without parameter), a chain of           *)
 (* substitution steps, the projected boxes of the real result and the free *)
-(* symbols reported before and after.  ZX diagrams have no evaluation in   *)
+(* symbols reported before and after, and (lam = 1: the last step gives    *)
+(* numbers) the boxes of the lambdified diagram called on those numbers.   *)
+(* ZX diagrams have no evaluation in                                       *)
 (* this version of the library: the claim checked is the structural one    *)
 (* (kinds, legs and non-numeric attributes unchanged; parameters           *)
 (* substituted; free symbols exact; none left after a closing step).       *)
@@ -25,6 +27,8 @@ OutZ(t) ==
             ELSE IF t.res # want THEN "substituted-parameters-differ"
             ELSE IF SetOfZ(t.fs0) # FSZ(t.boxes) THEN "free-symbols-of-the-diagram-wrong"
             ELSE IF SetOfZ(t.fs1) # FSZ(want) THEN "free-symbols-after-substitution-wrong"
+            ELSE IF t.lam = 1 /\ t.lexc # "" THEN "lambdify-raised"
+            ELSE IF t.lam = 1 /\ t.lres # want THEN "lambdified-diagram-differs-from-the-substituted-one"
             ELSE "ok" >>]
 Verdicts == LET TR == ndJsonDeserialize(IOEnv.TRACE_FILE) IN [l \in 1..Len(TR) |-> OutZ(TR[l])]
 ASSUME ndJsonSerialize(IOEnv.OUT, Verdicts)
